@@ -1610,22 +1610,22 @@ pub fn run_c11(tier: Tier) -> i32 {
             }
         }
     }
-    // a vAMM instantiated with a one-day funding period (the period cannot be changed later): time steps around half
-    // a day and a day
-    {
+    // vAMMs instantiated with other funding periods (the period cannot be changed later): one day, and five hours -
+    // a period that does not divide a day; time steps around half a period and a period
+    for fp in [86_400u64, 18_000] {
         let mut al = StdAlpha::basic(&T2);
         al.sizes = vec![SIZE_M];
-        al.blocks = vec![15, 43_200, 86_399, 86_400, 90_000];
+        al.blocks = vec![15, fp / 2, fp - 1, fp, fp + fp / 24];
         al.prices = vec![8 * D, 12_500_000];
         al.liquidators = vec![];
         al.deposit = None;
         let mut c = cfg_with(true, false, 0);
-        c.funding_period = 86_400;
+        c.funding_period = fp;
         let seeds = vec![
             vec![],
-            vec![Act::open("alice", true, SIZE_M.0, SIZE_M.1), Act::open("bob", false, SIZE_S.0, SIZE_S.1), Act::Px { price: 8 * D }, Act::blk(90_000)],
+            vec![Act::open("alice", true, SIZE_M.0, SIZE_M.1), Act::open("bob", false, SIZE_S.0, SIZE_S.1), Act::Px { price: 8 * D }, Act::blk(fp + fp / 24)],
         ];
-        exps.push(Exp::new("funding, one-day period", c, al.acts(), seeds, tier.pick(3, 4)));
+        exps.push(Exp::new("funding, other funding periods", c, al.acts(), seeds, tier.pick(3, 4)));
     }
     push_sweep(&mut exps, tier.pick(2, 3));
     push_dust(&mut exps, true, tier.pick(3, 4));
